@@ -463,7 +463,7 @@ const REGRESSIONS: [(&str, &str, &str); 4] = [
 ];
 
 pub fn def(tier: Tier) -> CheckDef {
-    let rounds = tier.pick(6, 100);
+    let rounds = tier.pick(40, 400);
     CheckDef {
         id: "C15",
         level: "exploration",
@@ -474,6 +474,7 @@ pub fn def(tier: Tier) -> CheckDef {
         ],
         idle_limit_s: 300,
         needs_cli: false,
+        fuzz: None,
         parts: vec![
             Part {
                 name: "regressions",
@@ -501,7 +502,7 @@ pub fn def(tier: Tier) -> CheckDef {
                 run: Box::new(|ctx, r| ctx.prop("planted", r, 1000, 200, planted_case)),
                 replay: Some(Box::new(|ctx, inp| match inp {
                     ReplayInput::Choices(c) => planted_case(ctx, &mut Ch::new(c)),
-                    ReplayInput::Text(_) => Err(Failure::new("this part replays from choices", "")),
+                    _ => Err(Failure::new("this part replays from choices", "")),
                 })),
             },
             Part {
@@ -510,7 +511,7 @@ pub fn def(tier: Tier) -> CheckDef {
                 run: Box::new(|ctx, r| ctx.prop("ranges", r, 400, 1200, ranges_case)),
                 replay: Some(Box::new(|ctx, inp| match inp {
                     ReplayInput::Choices(c) => ranges_case(ctx, &mut Ch::new(c)),
-                    ReplayInput::Text(_) => Err(Failure::new("this part replays from choices", "")),
+                    _ => Err(Failure::new("this part replays from choices", "")),
                 })),
             },
         ],
